@@ -971,7 +971,8 @@ impl<'a> Gen<'a> {
             }
             16 => {
                 if let Some(q) = self.qubit(env) {
-                    return MStmt::Delay(MExpr::Timing((1 + self.rng.below(50)).to_string(), self.pick(&["ns", "us", "dt", "ms"])), vec![q]);
+                    let num = if self.rng.below(3) == 0 { format!("{}.5", self.rng.below(9)) } else { (1 + self.rng.below(50)).to_string() };
+                    return MStmt::Delay(MExpr::Timing(num, self.pick(&["ns", "us", "dt", "ms"])), vec![q]);
                 }
                 MStmt::Empty
             }
